@@ -67,6 +67,12 @@ pub enum Pre {
 /// common preconditions: input parses independently, rewriter accepted it
 pub fn prepare(case: &Value) -> Pre {
     let (src, cfg, file) = case_parts(case);
+    if crate::engine::hash_str(&src) % 4 == 0 {
+        // one case in four: the same text under the same name has just been seen on this thread by a rewriter with another
+        // configuration (one that enables nothing the text contains): that earlier call must not decide anything here
+        let other = json!({"localVarPrefix": "test", "literals": false, "csiMethods": [{"src": "methodThatOccursNowhere"}]});
+        let _ = rw::rewrite_simple(&other, &src, &file);
+    }
     let a = analyze(&src, &cfg, &file);
     if let Err(e) = &a.src {
         return Pre::Done(Outcome::skip(format!("input rejected by the independent parser: {}", e.chars().take(40).collect::<String>())));
@@ -122,7 +128,9 @@ impl Check for C02 {
         }
         match a.erased.as_ref().unwrap() {
             Err(e) => {
-                if owner_of(&e.sig) == "C02" {
+                // (a temporary reassigned while a later read still needs it, or read before it is assigned: replacing each use
+                // by "the expression assigned to it" does not give back the input - the round trip itself fails)
+                if owner_of(&e.sig) == "C02" || e.sig == "temp-clobbered" || e.sig == "temp-read-before-assignment" {
                     Outcome::fail(e.sig.clone(), e.detail.clone())
                 } else {
                     Outcome { verdict: Verdict::Skip(format!("blocked by {} ({})", e.sig, owner_of(&e.sig))), nontrivial: false, classes }
